@@ -1,8 +1,10 @@
 """C30 — quote reproduces its argument: attribute coverage between render_quoted_form and the model constructors."""
+CANON = True
+
 import ast
 
 from .. import compq, pyq
-from ..pysrc import dotted, norm
+from ..pysrc import dotted, norm, flat
 
 R = compq.RM
 MO = "hy/models.py"
@@ -88,7 +90,7 @@ def check(ctx, src):
               witness="a constructor-built FComponent with conversion='r' loses it when quoted through hy.eval", detail="isinstance(x, Object)")
     fr = mo.func("FComponent.replace")
     ctx.require(fr is not None, "FComponent.replace not found")
-    t = " ".join(ast.unparse(fr).split())
+    t = flat(fr)
     ctx.check("for attr in self._extra_kwargs: if hasattr(other, attr): setattr(self, attr, getattr(other, attr))" in t, "Q-PROMOTE", f"{MO}|FComponent.replace|attrs", "FComponent.replace must copy the extra attributes", MO, fr.lineno, detail="copies _extra_kwargs")
     ek = {}
     for cn in ("FComponent", "FString"):
